@@ -36,6 +36,43 @@ def ParseLocal : Prop :=
     Pers (parse c1 0 k).1 (parse c2 0 k).1 ∧
     ∃ es, (parse c1 0 k).1.events = c1.events ++ es ∧ (parse c2 0 k).1.events = c2.events ++ es
 
+/-- the same statement for a class `M` of messages -/
+def ParseLocalOn (M : Bytes → Prop) : Prop :=
+  ∀ (c1 c2 : Ctx) (k : Nat), Pers c1 c2 →
+    c1.buf.length = c1.bufLen → c2.buf.length = c2.bufLen → k < c1.bufLen → c1.oob = false →
+    c1.buf.take k = c2.buf.take k → M (c1.buf.take k) →
+    Pers (parse c1 0 k).1 (parse c2 0 k).1 ∧
+    ∃ es, (parse c1 0 k).1.events = c1.events ++ es ∧ (parse c2 0 k).1.events = c2.events ++ es
+
+/-- messages ending in LF, without quote characters and CR -/
+def MsgLF (m : Bytes) : Prop := m.getLast? = some 10 ∧ ∀ b ∈ m, b ≠ 34 ∧ b ≠ 39 ∧ b ≠ 13
+
+/-- messages ending in LF or CR, without quote characters -/
+def MsgNL (m : Bytes) : Prop := (m.getLast? = some 10 ∨ m.getLast? = some 13) ∧ ∀ b ∈ m, b ≠ 34 ∧ b ≠ 39
+
+/-- `ParseLocal` for messages that may contain CR and may end in a lone CR: what the chunking theorems
+for streams with CR LF (or CR) terminators need.  NOT YET PROVED either; implies `ParseLocal`. -/
+def ParseLocalCR : Prop :=
+  ∀ (c1 c2 : Ctx) (k : Nat), Pers c1 c2 →
+    c1.buf.length = c1.bufLen → c2.buf.length = c2.bufLen → k < c1.bufLen → c1.oob = false →
+    c1.buf.take k = c2.buf.take k →
+    ((c1.buf.take k).getLast? = some 10 ∨ (c1.buf.take k).getLast? = some 13) →
+    (∀ b ∈ c1.buf.take k, b ≠ 34 ∧ b ≠ 39) →
+    Pers (parse c1 0 k).1 (parse c2 0 k).1 ∧
+    ∃ es, (parse c1 0 k).1.events = c1.events ++ es ∧ (parse c2 0 k).1.events = c2.events ++ es
+
+theorem ParseLocal.on (h : ParseLocal) : ParseLocalOn MsgLF :=
+  fun c1 c2 k hp l1 l2 hk ho ht hm => h c1 c2 k hp l1 l2 hk ho ht hm.1 hm.2
+
+theorem ParseLocalCR.on (h : ParseLocalCR) : ParseLocalOn MsgNL :=
+  fun c1 c2 k hp l1 l2 hk ho ht hm => h c1 c2 k hp l1 l2 hk ho ht hm.1 hm.2
+
+theorem ParseLocalCR.toLF (h : ParseLocalCR) : ParseLocal :=
+  fun c1 c2 k hp l1 l2 hk ho ht hl hc =>
+    h c1 c2 k hp l1 l2 hk ho ht (Or.inl hl) (fun b hb => ⟨(hc b hb).1, (hc b hb).2.1⟩)
+
+theorem ParseLocal_of_CR : ParseLocalCR → ParseLocal := ParseLocalCR.toLF
+
 /-- the pending bytes -/
 def content (c : Ctx) : Bytes := c.buf.take c.position
 
@@ -63,9 +100,5 @@ def step (c : Ctx) (k : Nat) : Ctx :=
 /-- append `y` and a NUL to the pending bytes -/
 def store (c : Ctx) (y : Bytes) : Ctx :=
   { c with buf := (poke c.buf c.position y).set (c.position + y.length) 0, position := c.position + y.length }
-
-/-- the scan finds a message in `s` and finds the same one when more bytes follow -/
-def StableOn (G : Bytes → Prop) : Prop :=
-  ∀ (s y : Bytes) (k : Nat), G (s ++ y) → scan s = some k → scan (s ++ y) = some k
 
 end ScpiVerif.Lemmas.Chunking
